@@ -82,6 +82,25 @@ fn factory_unstorable_data(_w: &World, st: &Step) -> bool {
 /// and the document can end up with the doctype after the document element
 fn doctype_moved(w: &World, st: &Step) -> bool {
     let is_dt = |s: &S| kind_of(w, *s) == Some(Kind::DocType);
+    // the defect needs a reference to an entity the doctype declares, somewhere in that document's nodes
+    let uses_declared_entity = |s: &S| -> bool {
+        let doc = match w.model.node_slot(*s) {
+            Some(m) => w.model.nodes[m].doc,
+            None => return false,
+        };
+        let in_model = w.model.nodes.iter().any(|n| {
+            !n.dead && n.doc == doc && n.kind == Kind::EntRef && !matches!(n.name.as_str(), "lt" | "gt" | "amp" | "apos" | "quot")
+        });
+        // the merged-text view hides reference items: look at the serialisation too
+        let in_text = match w.last_ser.get(doc) {
+            Some(Some(t)) => w.model.docs[doc].entities.iter().any(|(name, _)| t.contains(&format!("&{};", name))),
+            _ => true,
+        };
+        // detached subtrees of a merged-view document cannot be inspected either way: assume a reference
+        let hidden = w.model.docs[doc].expanded && !w.model.docs[doc].entities.is_empty();
+        in_model || in_text || hidden
+    };
+    let is_dt = |s: &S| is_dt(s) && uses_declared_entity(s);
     match &st.op {
         Op::InsertBefore { new, .. } | Op::AppendChild { new, .. } => is_dt(new),
         Op::ReplaceChild { new, old, .. } => is_dt(new) || is_dt(old),
